@@ -463,6 +463,53 @@ func (s *State) havoc(addr *Term, tag string) {
 	s.mem[k] = &memEntry{addr: addr, val: &Term{Op: "load", Aux: tag, Args: []*Term{addr}}, seq: s.seq}
 }
 
+// ReentrantState: the state in which a function value that may be called any number of times is analysed - the root
+// state for fn with the given bindings and memory, where every captured variable that fn itself (or a function
+// literal inside it) assigns is unknown: what an earlier call left there is not what the constructor put there.
+func ReentrantState(fn *ssa.Function, bindings []*Term, mem *State) *State {
+	st := NewRootState(fn, nil, bindings, mem)
+	st.facts = map[string]bool{}
+	written := map[int]bool{}
+	var scan func(f *ssa.Function, fvIndex map[ssa.Value]int)
+	scan = func(f *ssa.Function, fvIndex map[ssa.Value]int) {
+		for _, b := range f.Blocks {
+			for _, in := range b.Instrs {
+				switch in := in.(type) {
+				case *ssa.Store:
+					if i, ok := fvIndex[in.Addr]; ok {
+						written[i] = true
+					}
+				case *ssa.MakeClosure:
+					inner, _ := in.Fn.(*ssa.Function)
+					if inner == nil {
+						continue
+					}
+					m := map[ssa.Value]int{}
+					for j, bv := range in.Bindings {
+						if i, ok := fvIndex[bv]; ok && j < len(inner.FreeVars) {
+							m[inner.FreeVars[j]] = i
+						}
+					}
+					if len(m) > 0 {
+						scan(inner, m)
+					}
+				}
+			}
+		}
+	}
+	idx := map[ssa.Value]int{}
+	for i, fv := range fn.FreeVars {
+		idx[fv] = i
+	}
+	scan(fn, idx)
+	for i := range fn.FreeVars {
+		if written[i] && i < len(bindings) && bindings[i] != nil && bindings[i].Op == "alloc" {
+			st.havoc(bindings[i], "reentry")
+		}
+	}
+	return st
+}
+
 func (s *State) load(addr *Term, ver string) *Term {
 	k := addr.Key()
 	if e, ok := s.mem[k]; ok {
@@ -730,6 +777,7 @@ type Analysis struct {
 	// with their loops (a callee with loops is inlined at one call site only - the first one explored)
 	Headers   []*ssa.BasicBlock
 	loopOwner map[*ssa.Function]string
+	unrolled  map[*ssa.BasicBlock]bool // loop heads passed through (loops over a table of function values)
 	Segs      map[*ssa.BasicBlock][]*Path // nil key = from entry
 	Start     map[*ssa.BasicBlock]*State
 	Problems  []string
@@ -787,6 +835,7 @@ func HasLoop(fn *ssa.Function) bool { return len(LoopHeaders(fn)) > 0 }
 type explorer struct {
 	an     *Analysis
 	opt    *Options
+	unrollPasses int
 	isHdr  map[*ssa.BasicBlock]bool
 	from   *ssa.BasicBlock
 	out    []*Path
@@ -855,7 +904,87 @@ func Analyze(fn *ssa.Function, init *State, opt *Options) *Analysis {
 	for _, ps := range an.Segs {
 		an.NPaths += len(ps)
 	}
+	if len(an.unrolled) > 0 {
+		// a loop that was unrolled on every arrival is not a cut point of this analysis
+		kept := an.Headers[:0:0]
+		for _, h := range an.Headers {
+			if an.unrolled[h] && an.Start[h] == nil {
+				continue
+			}
+			kept = append(kept, h)
+		}
+		an.Headers = kept
+	}
 	return an
+}
+
+// tableLoop: blk is the head of `for i, f := range table` where table is a slice over a local array of function
+// values of known, small length built on this path (a variadic list of selectors / stages): such a loop is unrolled -
+// the calls through the table are then calls of the functions stored in it, in their order. Nothing else is unrolled.
+func (ex *explorer) tableLoop(st *State, blk, prev *ssa.BasicBlock) bool {
+	if len(st.frames) == 0 || st.top().fn != blk.Parent() {
+		return false
+	}
+	n := len(blk.Instrs)
+	if n < 3 {
+		return false
+	}
+	iff, ok := blk.Instrs[n-1].(*ssa.If)
+	if !ok {
+		return false
+	}
+	cmp, ok := iff.Cond.(*ssa.BinOp)
+	if !ok || cmp.Op != token.LSS || cmp.Block() != blk {
+		return false
+	}
+	incr, ok := cmp.X.(*ssa.BinOp)
+	if !ok || incr.Op != token.ADD || incr.Block() != blk {
+		return false
+	}
+	phi, ok := incr.X.(*ssa.Phi)
+	if !ok || phi.Block() != blk || phi.Comment != "rangeindex" {
+		return false
+	}
+	lenCall, ok := cmp.Y.(*ssa.Call)
+	if !ok {
+		return false
+	}
+	if b, isB := lenCall.Call.Value.(*ssa.Builtin); !isB || b.Name() != "len" || len(lenCall.Call.Args) != 1 {
+		return false
+	}
+	tbl, known := st.top().env[lenCall.Call.Args[0]]
+	if !known {
+		if _, isParam := lenCall.Call.Args[0].(*ssa.Parameter); !isParam {
+			return false
+		}
+		tbl = ex.eval(st, lenCall.Call.Args[0])
+	}
+	k, whole := wholeArraySlice(tbl)
+	if !whole || k < 1 || k > 20 {
+		return false
+	}
+	at := tbl.Args[0].Typ.Underlying().(*types.Pointer).Elem().Underlying().(*types.Array)
+	if _, isFn := at.Elem().Underlying().(*types.Signature); !isFn {
+		return false
+	}
+	// the arriving index must be a constant (the loop is entered with -1 and every pass adds 1; after a cut point
+	// inside the body it is a symbol, and the loop is an ordinary one again)
+	pi := predIndex(blk, prev)
+	if pi < 0 || pi >= len(phi.Edges) {
+		return false
+	}
+	if _, isK := ex.eval(st, phi.Edges[pi]).IntConst(); !isK {
+		return false
+	}
+	ex.unrollPasses++
+	if ex.unrollPasses > 400 {
+		return false
+	}
+	if ex.an.unrolled == nil {
+		ex.an.unrolled = map[*ssa.BasicBlock]bool{}
+	}
+	ex.an.unrolled[blk] = true
+	return true
 }
 
 // NewRootState prepares the root frame: parameters are "param" symbols unless
@@ -1273,7 +1402,7 @@ func (ex *explorer) run(st *State, blk *ssa.BasicBlock, idx int, prev *ssa.Basic
 		}
 		f := st.top()
 		if idx == 0 {
-			if ex.isHdr[blk] && !first {
+			if ex.isHdr[blk] && !first && !ex.tableLoop(st, blk, prev) {
 				// reached a cut point
 				p := &Path{To: blk, PhiOut: map[*ssa.Phi]*Term{}}
 				pi := predIndex(blk, prev)
@@ -1998,7 +2127,37 @@ func (ex *explorer) doCall(st *State, in ssa.Instruction, c *ssa.CallCommon, val
 	return false
 }
 
+// wholeArraySlice: x is arr[:] / arr[0:] of a local array of known length (returns the length).
+func wholeArraySlice(x *Term) (int64, bool) {
+	if x == nil || x.Op != "slice" || len(x.Args) != 4 || x.Args[0].Op != "alloc" || x.Args[0].Typ == nil {
+		return 0, false
+	}
+	pt, ok := x.Args[0].Typ.Underlying().(*types.Pointer)
+	if !ok {
+		return 0, false
+	}
+	at, ok := pt.Elem().Underlying().(*types.Array)
+	if !ok {
+		return 0, false
+	}
+	def := func(t *Term) bool { return t.IsConst() && t.Aux == "_" }
+	lo := x.Args[1]
+	if k, isK := lo.IntConst(); !(def(lo) || isK && k == 0) {
+		return 0, false
+	}
+	if !def(x.Args[2]) || !def(x.Args[3]) {
+		return 0, false
+	}
+	return at.Len(), true
+}
+
 func simplifyLenCap(op string, x *Term) *Term {
+	if n, ok := wholeArraySlice(x); ok {
+		return &Term{Op: "const", Aux: strconv.FormatInt(n, 10)}
+	}
+	if x.IsNil() {
+		return &Term{Op: "const", Aux: "0"}
+	}
 	switch {
 	case x.Op == "mkslice" && op == "len":
 		return x.Args[0]
@@ -2072,7 +2231,12 @@ func (ex *explorer) simple(st *State, in ssa.Instruction) {
 		name := fieldName(in.X.Type(), in.Field)
 		f.env[in] = fieldOf(x, name)
 	case *ssa.IndexAddr:
-		f.env[in] = &Term{Op: "iaddr", Args: []*Term{ex.eval(st, in.X), ex.eval(st, in.Index)}, Typ: in.Type()}
+		x := ex.eval(st, in.X)
+		// an element of arr[:] (arr a local array: a slice literal, a variadic argument list) is the array's element
+		if n, ok := wholeArraySlice(x); ok && n >= 0 {
+			x = x.Args[0]
+		}
+		f.env[in] = &Term{Op: "iaddr", Args: []*Term{x, ex.eval(st, in.Index)}, Typ: in.Type()}
 	case *ssa.Index:
 		f.env[in] = &Term{Op: "index", Args: []*Term{ex.eval(st, in.X), ex.eval(st, in.Index)}}
 	case *ssa.Lookup:
